@@ -215,3 +215,12 @@ def g_add_edge(eng, st, node, a, kw, k, ctx):
     eng.store_field(st, g.t, "NxGraph", "val", V(GV, new), node)
     _record(eng, "Graph.add_edge between a node of each part of a disjoint union adds one edge and merges two components: two trees joined by one edge form a tree (trusted lemma)")
     return k(st, VNONE)
+
+
+@external("Chem.AddHs")
+def addhs(eng, st, node, a, kw, k, ctx):
+    m = fresh("withHs", z3.IntSort())
+    st.assume(m >= 1)
+    st.assume(uf("natoms")(m) >= uf("natoms")(a[0].t))
+    _record(eng, "Chem.AddHs returns a molecule with at least the atoms of its argument (trusted)")
+    return k(st, V(MOL, m))
